@@ -44,6 +44,19 @@ def gen_cases(rng, tier):
     cases = []
     maxk = 5 if tier == "quick" else 7
     n = 0
+    # a forked INVITE: two or three caller-side dialogs created through one builder (same Call-ID and local tag, one peer tag each);
+    # every fork's requests reach its own usages, in order, whatever the other forks do
+    fk = 0
+    for nf in (2, 3):
+        for perm in itertools.permutations(range(nf)):
+            setup = ",".join(["C:1"] + ["F:1"] * (nf - 1))
+            evs = []
+            for r, d in enumerate(perm):
+                evs.append(_recv(d, 10 * (d + 1), "a%d" % r, cid="c0", tt="l0"))
+            for r, d in enumerate(perm):
+                evs.append(_recv(d, 10 * (d + 1) + 2, "b%d" % r, cid="c0", tt="l0"))
+                evs.append(_recv(d, 10 * (d + 1) + 1, "c%d" % r, cid="c0", tt="l0"))
+            cases.append(["fork%d" % fk, "c10", setup, ",".join(evs)]); fk += 1
     # exhaustive permutations
     bases = [("S", 7), ("S", 0), ("C", None), ("S", U32 - 8)]
     for k in range(1, maxk + 1):
@@ -155,9 +168,12 @@ def _parse_case(case):
     for d in case[2].split(","):
         p = d.split(":")
         if p[0] == "S":
-            setup.append({"kind": "S", "base": int(p[1]), "nus": int(p[2])})
+            setup.append({"kind": "S", "base": int(p[1]), "nus": int(p[2]), "owner": len(setup)})
+        elif p[0] == "F" and setup:
+            # a further fork: the dialog shares Call-ID and local tag with the previous caller-side dialog, its peer tag is its own
+            setup.append({"kind": "F", "base": None, "nus": int(p[1]), "owner": setup[-1]["owner"]})
         else:
-            setup.append({"kind": "C", "base": None, "nus": int(p[1])})
+            setup.append({"kind": "C", "base": None, "nus": int(p[1]), "owner": len(setup)})
     evs = [e.split(":") for e in case[3].split(",") if e]
     return setup, evs
 
@@ -185,7 +201,7 @@ def oracle(case, impl):
         cseq = int(cseq)
         d = None
         for i in range(len(setup)):
-            if cid == "c%d" % i and ft == "p%d" % i and tt == "l%d" % i:
+            if cid == "c%d" % setup[i]["owner"] and ft == "p%d" % i and tt == "l%d" % setup[i]["owner"]:
                 d = i
         if d is None:
             if o != "N":
